@@ -89,7 +89,10 @@ func (m *Mapper) FieldDimensions(mm *influxql.Measurement) (map[string]influxql.
 	fields := map[string]influxql.DataType{}
 	dims := map[string]struct{}{}
 	for _, ms := range Lookup(m.Schema, mm) {
-		for k, t := range ms.Fields {
+		// sorted: the loop body calls into the library (DataTypeFromString, String), and a native
+		// map order here would make the sequence of scheduling points differ between executions
+		for _, k := range sortedFieldNames(ms.Fields) {
+			t := ms.Fields[k]
 			// the service itself resolves a conflict between the measurements a regex denotes
 			if cur, ok := fields[k]; !ok || Rank(t) > Rank(cur.String()) {
 				fields[k] = dt(t)
@@ -120,12 +123,14 @@ func (m *Mapper) FieldDimensions(mm *influxql.Measurement) (map[string]influxql.
 
 // StoredDiff reports how the maps the service keeps differ from its schema ("" if intact).
 func (m *Mapper) StoredDiff() string {
-	for name, f := range m.storedF {
+	for _, name := range sortedNames(m.storedF) {
+		f := m.storedF[name]
 		wantF, wantT := Columns(m.Schema, &influxql.Measurement{Name: name})
 		if len(f) != len(wantF) {
 			return fmt.Sprintf("stored field map of %q has %d entries, schema has %d", name, len(f), len(wantF))
 		}
-		for k, t := range wantF {
+		for _, k := range sortedFieldNames(wantF) {
+			t := wantF[k]
 			if f[k].String() != t {
 				return fmt.Sprintf("stored field map of %q: %s is %s, schema says %s", name, k, f[k], t)
 			}
@@ -248,4 +253,22 @@ func Rank(t string) int {
 		return 1
 	}
 	return 0
+}
+
+func sortedFieldNames(m map[string]string) []string {
+	ks := make([]string, 0, len(m))
+	for k := range m {
+		ks = append(ks, k)
+	}
+	sort.Strings(ks)
+	return ks
+}
+
+func sortedNames(m map[string]map[string]influxql.DataType) []string {
+	ks := make([]string, 0, len(m))
+	for k := range m {
+		ks = append(ks, k)
+	}
+	sort.Strings(ks)
+	return ks
 }
